@@ -131,6 +131,47 @@ Fixpoint trunc (L : list xloc) : lineage * bool :=
       if ba then ([Some ta], true) else let '(t, b) := trunc r in (Some ta :: t, b)
   end.
 
+(* principals_allowed_by_permission on malformed input: the walk goes over the WHOLE lineage from the root, so an
+   XAclNone anywhere raises; an XBad raises when the scan of its ACL reaches it, i.e. unless a matching Deny of Everyone
+   earlier in the same ACL has left the loop.  None = raised. *)
+Fixpoint pa_scan_x (p : text) (a : list xace) (allowed ah dh : list text) : option (list text * list text) :=
+  match a with
+  | [] => Some (allowed, ah)
+  | XBad :: _ => None
+  | XGood e :: r =>
+      let inp := perm_in p (what e) in
+      match act e with
+      | Allow =>
+          if inp && negb (mem_text (who e) dh)
+          then pa_scan_x p r allowed (add (who e) ah) dh
+          else pa_scan_x p r allowed ah dh
+      | Deny =>
+          if inp then
+            if text_eqb (who e) everyone then Some ([], ah)
+            else pa_scan_x p r (remove (who e) allowed) ah (add (who e) dh)
+          else pa_scan_x p r allowed ah dh
+      | Other => pa_scan_x p r allowed ah dh
+      end
+  end.
+
+Definition pa_step_x (p : text) (acc : option (list text)) (loc : xloc) : option (list text) :=
+  match acc with
+  | None => None
+  | Some allowed =>
+      match loc with
+      | XNoAttr => Some allowed
+      | XAclNone => None
+      | XAcl a => match pa_scan_x p a allowed [] [] with Some (al, ah) => Some (union al ah) | None => None end
+      end
+  end.
+
+Definition principals_allowed_x (L : list xloc) (p : text) : option (list text) :=
+  fold_left (pa_step_x p) (rev L) (Some []).
+
+(* every ACL cut before its first malformed ACE *)
+Definition strip (L : list xloc) : lineage :=
+  map (fun l => match l with XAcl a => Some (fst (trunc_acl a)) | _ => None end) L.
+
 (* ---- declarative specification (the property's wording) *)
 Definition flatten (L : lineage) : list ace :=
   concat (map (fun o => match o with Some a => a | None => [] end) L).
@@ -278,6 +319,18 @@ Definition get_views (v : val) : option (option sview * bool) :=
   | VL l => match map_opt get_sub l with Some subs => Some (Some (SMulti subs), false) | None => None end
   end.
 
+Definition get_xace (v : val) : option xace :=
+  match v with VI _ => Some XBad | _ => olet e := get_ace v in Some (XGood e) end.
+Definition get_xloc (v : val) : option xloc :=
+  match v with
+  | VI 0%Z => Some XNoAttr
+  | VI _ => Some XAclNone
+  | VL [a] => olet a := get_list_of get_xace a in Some (XAcl a)
+  | _ => None
+  end.
+Definition put_xdec (d : xdecision) : val :=
+  match d with XDec d => put_decision d | XRaised => VL [VT [69; 88; 67]%N] end.
+
 Definition put_hp (r : hp_result) : val :=
   match r with ByPolicy d => put_decision d | NoPolicyAllowed => VL [VI 1; VT [110; 111; 45; 112; 111; 108; 105; 99; 121]%N] end.
 
@@ -290,8 +343,10 @@ Definition put_hp (r : hp_result) : val :=
 Definition run_C11 (v : val) : val :=
   ret_or_bad (
     match v with
-    | VL [l; ps; p; root; views] =>
+    | VL [l; ps; p; root; views; xl] =>
         olet vw := get_views views in
+        (* a malformed lineage (VI 0: none): answered by the hand-written extension permits_x / principals_allowed_x *)
+        olet Lx := (match xl with VI _ => Some [] | _ => get_list_of get_xloc xl end) in
         let R := mkReg true true (fst vw) (snd vw) in
         let R0 := mkReg false false None false in
         olet L0 := get_lineage l in olet ps := get_texts ps in olet p := get_text p in
@@ -313,6 +368,9 @@ Definition run_C11 (v : val) : val :=
                   put_hp (gen_has_permission R (Some L) [] ps p);
                   vtexts (gen_sec_principals_allowed R L p);
                   put_vep (gen_view_execution_permitted R L ps);
-                  vopt vbool (match vep_permission R with Some q => Some (spec_granted L ps q) | None => None end)])
+                  vopt vbool (match vep_permission R with Some q => Some (spec_granted L ps q) | None => None end);
+                  put_xdec (permits_x Lx ps p);
+                  vopt vtexts (principals_allowed_x Lx p);
+                  vbool (spec_granted (fst (trunc Lx)) ps p)])
     | _ => None
     end).
